@@ -26,6 +26,10 @@ def make_param(name):
     r.add_float_param('p', 1e-3, 10.0, scale_type=vz.ScaleType.LOG)
   elif name == 'D_revlog':
     r.add_float_param('p', 0.1, 1.0, scale_type=vz.ScaleType.REVERSE_LOG)
+  elif name == 'D_shift1':
+    r.add_float_param('p', 2.0, 3.0)          # range exactly 1, lower bound not 0
+  elif name == 'D_sym1':
+    r.add_float_param('p', -0.5, 0.5)
   elif name == 'D_single':
     r.add_float_param('p', 2.0, 2.0)
   elif name == 'I_small':
